@@ -2,6 +2,7 @@ package c14
 
 import (
 	"bytes"
+	"context"
 	"fmt"
 
 	"google.golang.org/protobuf/proto"
@@ -12,6 +13,7 @@ import (
 	tinkpb "github.com/tink-crypto/tink-go/v2/proto/tink_go_proto"
 	"github.com/tink-crypto/tink-go/v2/tink"
 	"github.com/tink-crypto/tink-go/v2/verifharness/internal/evid"
+	"github.com/tink-crypto/tink-go/v2/verifharness/internal/tk"
 )
 
 // kekKey is the harness key-encryption key (AES-256-GCM) for EncryptedKeyset inputs.
@@ -167,6 +169,12 @@ func (e *env) readAll(ks *tinkpb.Keyset, ad []byte) (acc []accepted, rejects int
 		h, err = keyset.ReadWithAssociatedData(keyset.NewBinaryReader(bytes.NewReader(encBin)), kek, ad)
 	})
 	add("encrypted-binary", h, err)
+	// every ReadWithAssociatedData call has a ReadWithContext twin (same format, separate code path)
+	ctx, ckek := context.Background(), tk.CtxAEAD(kek)
+	e.guard("keyset.ReadWithContext(BinaryReader)", func() {
+		h, err = keyset.ReadWithContext(ctx, keyset.NewBinaryReader(bytes.NewReader(encBin)), ckek, ad)
+	})
+	add("encrypted-ctx-binary", h, err)
 	if len(ad) == 0 {
 		e.guard("keyset.Read(BinaryReader)", func() {
 			h, err = keyset.Read(keyset.NewBinaryReader(bytes.NewReader(encBin)), kek)
@@ -179,11 +187,19 @@ func (e *env) readAll(ks *tinkpb.Keyset, ad []byte) (acc []accepted, rejects int
 			h, err = keyset.ReadWithAssociatedData(keyset.NewJSONReader(bytes.NewReader(encJSON.Bytes())), kek, ad)
 		})
 		add("encrypted-json", h, err)
+		e.guard("keyset.ReadWithContext(JSONReader)", func() {
+			h, err = keyset.ReadWithContext(ctx, keyset.NewJSONReader(bytes.NewReader(encJSON.Bytes())), ckek, ad)
+		})
+		add("encrypted-ctx-json", h, err)
 	}
 	e.guard("keyset.ReadWithAssociatedData(MemReaderWriter)", func() {
 		h, err = keyset.ReadWithAssociatedData(&keyset.MemReaderWriter{EncryptedKeyset: proto.Clone(enc).(*tinkpb.EncryptedKeyset)}, kek, ad)
 	})
 	add("encrypted-mem", h, err)
+	e.guard("keyset.ReadWithContext(MemReaderWriter)", func() {
+		h, err = keyset.ReadWithContext(ctx, &keyset.MemReaderWriter{EncryptedKeyset: proto.Clone(enc).(*tinkpb.EncryptedKeyset)}, ckek, ad)
+	})
+	add("encrypted-ctx-mem", h, err)
 	// an EncryptedKeyset whose (unauthenticated) KeysetInfo contradicts the keyset: the info is ignored
 	// or the input rejected, the handle is well formed either way
 	liar := &tinkpb.EncryptedKeyset{EncryptedKeyset: ct, KeysetInfo: &tinkpb.KeysetInfo{PrimaryKeyId: ks.PrimaryKeyId + 1, KeyInfo: []*tinkpb.KeysetInfo_KeyInfo{nil, {TypeUrl: "x", Status: 9, KeyId: 1, OutputPrefixType: 9}}}}
@@ -191,18 +207,84 @@ func (e *env) readAll(ks *tinkpb.Keyset, ad []byte) (acc []accepted, rejects int
 		h, err = keyset.ReadWithAssociatedData(&keyset.MemReaderWriter{EncryptedKeyset: liar}, kek, ad)
 	})
 	add("encrypted-mem-contradicting-info", h, err)
-	// no EncryptedKeyset at all, wrong associated data, truncated ciphertext: errors, no panic
-	e.guard("keyset.Read(MemReaderWriter without EncryptedKeyset)", func() {
-		if hh, herr := keyset.Read(&keyset.MemReaderWriter{}, kek); herr == nil {
-			h, err = hh, nil
-			acc = append(acc, accepted{"encrypted-mem-nil", hh})
-		}
+	e.guard("keyset.ReadWithContext(MemReaderWriter, contradicting KeysetInfo)", func() {
+		h, err = keyset.ReadWithContext(ctx, &keyset.MemReaderWriter{EncryptedKeyset: proto.Clone(liar).(*tinkpb.EncryptedKeyset)}, ckek, ad)
 	})
-	e.guard("keyset.ReadWithAssociatedData(wrong ad / truncated)", func() {
+	add("encrypted-ctx-mem-contradicting-info", h, err)
+	// wrong associated data, truncated ciphertext: errors, no panic
+	e.guard("keyset.ReadWithAssociatedData / ReadWithContext(wrong ad / truncated)", func() {
 		keyset.ReadWithAssociatedData(keyset.NewBinaryReader(bytes.NewReader(encBin)), kek, append([]byte{1}, ad...))
 		keyset.ReadWithAssociatedData(keyset.NewBinaryReader(bytes.NewReader(encBin[:len(encBin)/2])), kek, ad)
+		keyset.ReadWithContext(ctx, keyset.NewBinaryReader(bytes.NewReader(encBin)), ckek, append([]byte{1}, ad...))
+		keyset.ReadWithContext(ctx, keyset.NewBinaryReader(bytes.NewReader(encBin[:len(encBin)/2])), ckek, ad)
 	})
+	// the encrypted readers without a key-encryption AEAD (a genuine EncryptedKeyset, nil KEK), and
+	// every reader on an empty MemReaderWriter / a nil keyset: error or well-formed handle, no panic
+	e.degenerateCalls(encBin, encJSON.Bytes(), enc, ad)
 	return acc, rejects
+}
+
+// degenerateCalls: every reader with nothing to read (MemReaderWriter{} has a nil Keyset and a nil
+// EncryptedKeyset; NewHandleWithNoSecrets(nil); KeysetHandle(nil)) and every encrypted reader with a
+// nil key-encryption AEAD on a genuine EncryptedKeyset.  Each call runs under guard (a panic is a
+// failure).  Nothing to read is an empty keyset, which the property says is always rejected; a handle
+// returned by a reader without KEK must at least be well formed.
+func (e *env) degenerateCalls(encBin, encJSON []byte, enc *tinkpb.EncryptedKeyset, ad []byte) {
+	kek := newKEK()
+	ctx, ckek := context.Background(), tk.CtxAEAD(kek)
+	nothingToRead := true
+	call := func(name string, fn func() (*keyset.Handle, error)) {
+		var h *keyset.Handle
+		var err error
+		e.guard(name, func() { h, err = fn() })
+		evid.Add("degenerate_reader_calls", 1)
+		if err != nil {
+			return
+		}
+		sub := *e
+		sub.what = e.what + " / " + name
+		if nothingToRead {
+			sub.failf("%s returned a handle (%d keys) and no error: an empty keyset must be rejected", name, h.Len())
+		}
+		sub.checkHandle(h)
+	}
+	empty := func() *keyset.MemReaderWriter { return &keyset.MemReaderWriter{} }
+	call("insecurecleartextkeyset.Read(MemReaderWriter{})", func() (*keyset.Handle, error) { return insecurecleartextkeyset.Read(empty()) })
+	call("keyset.ReadWithNoSecrets(MemReaderWriter{})", func() (*keyset.Handle, error) { return keyset.ReadWithNoSecrets(empty()) })
+	call("keyset.NewHandleWithNoSecrets(nil)", func() (*keyset.Handle, error) { return keyset.NewHandleWithNoSecrets(nil) })
+	call("keyset.NewHandleWithNoSecrets(&Keyset{})", func() (*keyset.Handle, error) { return keyset.NewHandleWithNoSecrets(&tinkpb.Keyset{}) })
+	call("insecurecleartextkeyset.KeysetHandle(nil)", func() (*keyset.Handle, error) {
+		if h := insecurecleartextkeyset.KeysetHandle(nil); h != nil {
+			return h, nil
+		}
+		return nil, fmt.Errorf("nil handle")
+	})
+	call("keyset.Read(MemReaderWriter{})", func() (*keyset.Handle, error) { return keyset.Read(empty(), kek) })
+	call("keyset.ReadWithAssociatedData(MemReaderWriter{})", func() (*keyset.Handle, error) { return keyset.ReadWithAssociatedData(empty(), kek, ad) })
+	call("keyset.ReadWithContext(MemReaderWriter{})", func() (*keyset.Handle, error) { return keyset.ReadWithContext(ctx, empty(), ckek, ad) })
+	call("keyset.Read(MemReaderWriter{EncryptedKeyset{}})", func() (*keyset.Handle, error) {
+		return keyset.Read(&keyset.MemReaderWriter{EncryptedKeyset: &tinkpb.EncryptedKeyset{}}, kek)
+	})
+	// nil key-encryption AEAD (the untyped nil interface value)
+	nothingToRead = false
+	readers := map[string]func() keyset.Reader{
+		"BinaryReader": func() keyset.Reader { return keyset.NewBinaryReader(bytes.NewReader(encBin)) },
+		"MemReaderWriter": func() keyset.Reader {
+			return &keyset.MemReaderWriter{EncryptedKeyset: proto.Clone(enc).(*tinkpb.EncryptedKeyset)}
+		},
+	}
+	if len(encJSON) > 0 {
+		readers["JSONReader"] = func() keyset.Reader { return keyset.NewJSONReader(bytes.NewReader(encJSON)) }
+	}
+	for _, rn := range []string{"BinaryReader", "JSONReader", "MemReaderWriter"} {
+		mk, ok := readers[rn]
+		if !ok {
+			continue
+		}
+		call("keyset.Read("+rn+", nil KEK)", func() (*keyset.Handle, error) { return keyset.Read(mk(), nil) })
+		call("keyset.ReadWithAssociatedData("+rn+", nil KEK)", func() (*keyset.Handle, error) { return keyset.ReadWithAssociatedData(mk(), nil, ad) })
+		call("keyset.ReadWithContext("+rn+", nil KEK)", func() (*keyset.Handle, error) { return keyset.ReadWithContext(ctx, mk(), nil, ad) })
+	}
 }
 
 // decide applies the model to the outcome of the readers: a keyset with a structural defect must
